@@ -19,7 +19,7 @@ func (c17) ID() string { return "C17" }
 
 // EvalFeatures names the counters of judged executions.
 func (c17) EvalFeatures() []string {
-	return []string{"commands", "unregistered-name-is-error", "k3-commands"}
+	return []string{"commands", "unregistered-name-is-error", "k3-commands", "commands-executed-again", "two-runners-separate-registries"}
 }
 
 func (c17) Cases(tier string) int {
@@ -40,25 +40,28 @@ var c17PlainWords = []string{"voilà", "Åse", "😅", "naïveté", "ａｂ", "l
 
 func (c17) Thresholds(tier string) map[string]int64 {
 	th := map[string]int64{
-		"commands":                        15000,
-		"word:boolean":                    400,
-		"word:number":                     1200,
-		"word:negative-number":            500,
-		"word:hostile-string":             5000,
-		"word:plain-string":               2000,
-		"arg:expression-number":           500,
-		"arg:expression-boolean":          500,
-		"arg:expression-string":           500,
-		"sep:tab":                         2000,
-		"sep:run-of-blanks":               2000,
-		"sep:mixed":                       1000,
-		"name:keyword-prefixed":           4000,
-		"name:multi-byte":                 1000,
-		"unregistered-name-is-error":      500,
-		"stop-not-dispatched":             500,
-		"zero-arguments":                  500,
-		"k3-commands":                     500,
-		"host-handler-registered-as-wait": 800,
+		"commands":                         15000,
+		"word:boolean":                     400,
+		"word:number":                      1200,
+		"word:negative-number":             500,
+		"word:hostile-string":              5000,
+		"word:plain-string":                2000,
+		"arg:expression-number":            500,
+		"arg:expression-boolean":           500,
+		"arg:expression-string":            500,
+		"sep:tab":                          2000,
+		"sep:run-of-blanks":                2000,
+		"sep:mixed":                        1000,
+		"name:keyword-prefixed":            4000,
+		"name:multi-byte":                  1000,
+		"unregistered-name-is-error":       500,
+		"stop-not-dispatched":              500,
+		"zero-arguments":                   500,
+		"k3-commands":                      500,
+		"host-handler-registered-as-wait":  800,
+		"sep:none-between-two-expressions": 300,
+		"commands-executed-again":          3000,
+		"two-runners-separate-registries":  800,
 	}
 	for _, w := range c17HostileWords {
 		th["hostile:"+w] = 20
@@ -70,13 +73,13 @@ func (c17) Thresholds(tier string) map[string]int64 {
 }
 
 func (c17) Rule() string {
-	return "case = one script of 30 generic commands <<name arg ...>> separated by lines, each registered under its name with a logging raw handler, plus one command under an unregistered name (must be an error) and a final <<stop>> with a handler registered under 'stop' (must never be invoked). Names: plain identifiers incl. multi-byte, and every keyword as a prefix (" + strings.Join(c17KeywordNames, ", ") + "); words: a hostile pool (" + strings.Join(c17HostileWords, " ") + ") and plain words incl. multi-byte and punctuation; {expression} arguments of each type surrounded by blanks; separators: single blank, runs of blanks, tabs, mixtures, also before >>. Oracle: the handler log (name, typed argument list, once, in order) equals the model's: a word is a boolean iff it is exactly true/false, a number iff it matches -?[0-9]+(\\.[0-9]+)?, otherwise a string; expressions arrive as their value. Non-trivial: >=2 arguments of >=2 expected types, or a keyword-prefixed name, or a hostile word. Distinct by hash of the command's source text. Names beginning with else/endif/endenum are the known finding K3 and run in a sub-workload of their own."
+	return "case = one script of 30 generic commands <<name arg ...>> separated by lines, each registered under its name with a logging raw handler, plus one command under an unregistered name (must be an error) and a final <<stop>> with a handler registered under 'stop' (must never be invoked). Names: plain identifiers incl. multi-byte, and every keyword as a prefix (" + strings.Join(c17KeywordNames, ", ") + "); words: a hostile pool (" + strings.Join(c17HostileWords, " ") + ") and plain words incl. multi-byte and punctuation; {expression} arguments of each type surrounded by blanks; separators: single blank, runs of blanks, tabs, mixtures, also before >>. Oracle: the handler log (name, typed argument list, once, in order) equals the model's: a word is a boolean iff it is exactly true/false, a number iff it matches -?[0-9]+(\\.[0-9]+)?, otherwise a string; expressions arrive as their value. Further sub-workloads: two {expressions} written back to back (two arguments, nothing between them); a node that runs 2-5 commands over compound expressions of $n/$b/$s, changes the variables and jumps back to itself (every execution must deliver the values as they evaluate then); two runners over one script where the second registers another handler under the same name or none (each command reaches the handler of its own runner; a name registered only elsewhere is an error). Non-trivial: >=2 arguments of >=2 expected types, or a keyword-prefixed name, or a hostile word. Distinct by hash of the command's source text. Names beginning with else/endif/endenum are the known finding K3 and run in a sub-workload of their own."
 }
 
 func (c17) Assumptions() []string {
 	return []string{
 		"'decimal literal' is the grammar's own NUMBER (digits, optionally one point followed by digits), optionally negative",
-		"words contain no blanks, tabs, '>' or '{'; an {expression} argument is always separated from neighbouring words by at least one blank or tab",
+		"words contain no blanks, tabs, '>' or '{'; an {expression} argument is always separated from neighbouring WORDS by at least one blank or tab (what a word glued to an expression means is not settled); two expressions may touch",
 		"names that are exactly a keyword (if, set, jump, stop, wait ...) are not 'merely beginning with a keyword' and are not generated as custom commands",
 		"K3 is matched only for a command whose name begins with else, endif or endenum and only when loading fails",
 	}
@@ -150,6 +153,12 @@ func (p c17) command(c *core.Ctx, name string, id int) (*hast.Stmt, bool) {
 		c.Feature("zero-arguments")
 	}
 	for i := 0; i < len(st.Args); i++ {
+		if i > 0 && st.Args[i].X != nil && st.Args[i-1].X != nil && r.Chance(1, 2) {
+			// two expressions written back to back are still two arguments, with nothing between them
+			st.Sep = append(st.Sep, "")
+			c.Feature("sep:none-between-two-expressions")
+			continue
+		}
 		st.Sep = append(st.Sep, c17Sep(r, c))
 	}
 	tail := ""
@@ -269,6 +278,106 @@ func (p c17) Run(c *core.Ctx) {
 			return
 		}
 		c.Feature("unregistered-name-is-error")
+	}
+
+	// ---- command statements executed several times: arguments are evaluated at every execution
+	{
+		var loop []*hast.Stmt
+		exprs := []*hast.Expr{
+			hast.Bin("*", hast.Var("n"), hast.Num("10")), hast.Neg(hast.Var("n")), hast.Bin(">", hast.Var("n"), hast.Num("43")),
+			hast.Bin("+", hast.Str("x"), hast.Call("string", hast.Var("n"))), hast.Not(hast.Var("b")), hast.Bin("+", hast.Var("s"), hast.Str("!")),
+			hast.Var("n"), hast.Var("b"), hast.Var("s"), hast.Call("p", hast.Num("1"), hast.Var("n")), hast.Bin("-", hast.Num("100"), hast.Neg(hast.Var("n"))),
+			hast.Bin("and", hast.Var("b"), hast.Bool(true)), hast.Neg(hast.Neg(hast.Var("n"))),
+		}
+		var lnames []string
+		for i := r.Range(2, 5); i > 0; i-- {
+			name := c17PlainNames[r.Intn(len(c17PlainNames))]
+			lnames = append(lnames, name)
+			st := &hast.Stmt{K: hast.SCommand, Name: name, ID: 100 + i}
+			for k := r.Range(1, 4); k > 0; k-- {
+				if r.Chance(1, 4) {
+					st.Args = append(st.Args, hast.CmdArg{Word: c17HostileWords[r.Intn(len(c17HostileWords))]})
+				} else {
+					st.Args = append(st.Args, hast.CmdArg{X: exprs[r.Intn(len(exprs))]})
+				}
+			}
+			loop = append(loop, st)
+		}
+		loop = append(loop,
+			&hast.Stmt{K: hast.SSet, Var: "n", Op: "=", X: hast.Bin("+", hast.Var("n"), hast.Num("1"))},
+			&hast.Stmt{K: hast.SSet, Var: "b", Op: "=", X: hast.Not(hast.Var("b"))},
+			&hast.Stmt{K: hast.SSet, Var: "s", Op: "=", X: hast.Bin("+", hast.Var("s"), hast.Str("x"))},
+			&hast.Stmt{K: hast.SIf, Clauses: []*hast.Clause{{Cond: hast.Bin("<", hast.Var("n"), hast.Num("45")), Body: []*hast.Stmt{{K: hast.SJump, Target: "Start"}}}}},
+			&hast.Stmt{K: hast.SLine, Parts: []hast.Part{hast.Lit("done")}})
+		lp := &hast.Program{Readers: 1, Nodes: []*hast.Node{{Title: "Start", Body: loop}}}
+		ls := hast.Render(lp, hast.L0())
+		lpair, err, pan := NewPair(lp, ls, PairOpts{Pre: c17Pre, ExtraCmds: lnames}, nil)
+		if err != nil || pan != "" {
+			c.Violate("a script that runs its commands in a loop failed to load", map[string]any{"readers": ls, "error": fmt.Sprint(err), "panic": pan})
+			return
+		}
+		for step := 0; step < 20; step++ {
+			want, got, diff := lpair.Step(0)
+			if diff != "" {
+				c.Violate("a command statement executed again did not reach its handler with the arguments as they evaluate now: "+diff, lpair.Detail(nil, want, got, diff))
+				return
+			}
+			if want.Kind == model.OEnd || want.Kind == model.OErr {
+				break
+			}
+		}
+		c.FeatureN("commands-executed-again", 2*(len(loop)-5))
+		c.Feature("loop-scripts")
+	}
+
+	// ---- registrations belong to one runner: a second runner created in between has handlers of its own
+	{
+		name := c17PlainNames[r.Intn(len(c17PlainNames))]
+		st1, _ := p.command(c, name, 1)
+		tp := &hast.Program{Readers: 1, Nodes: []*hast.Node{{Title: "Start", Body: []*hast.Stmt{st1, {K: hast.SLine, Parts: []hast.Part{hast.Lit("after")}}}}}}
+		ts := hast.Render(tp, hast.L0())
+		first, err, pan := NewPair(tp, ts, PairOpts{Pre: c17Pre, ExtraCmds: []string{name}}, nil)
+		if err != nil || pan != "" {
+			c.Violate("a script of generic commands failed to load", map[string]any{"readers": ts, "error": fmt.Sprint(err), "panic": pan})
+			return
+		}
+		// another runner over the same script: registers a different handler under the same name, or none
+		otherCalls := 0
+		ost := mon.NewRecStorer()
+		for k, v := range c17Pre {
+			ost.HostSet(k, v)
+		}
+		other, err, pan := mon.Create(ost, "", ts)
+		if err != nil || pan != "" {
+			c.Violate("a script of generic commands failed to load", map[string]any{"readers": ts, "error": fmt.Sprint(err), "panic": pan})
+			return
+		}
+		registered := r.Bool()
+		if registered {
+			other.DR.AddCommand(name, mon.AdaptCmd(func([]model.Val) error { otherCalls++; return nil }))
+		}
+		want, got, diff := first.Step(0)
+		if diff != "" || otherCalls != 0 {
+			if diff == "" {
+				diff = "the handler registered on ANOTHER runner was invoked"
+			}
+			c.Violate("a command did not reach the handler registered on its own runner: "+diff, first.Detail(nil, want, got, diff))
+			return
+		}
+		before := len(first.RLog.E)
+		o := other.Next(0)
+		switch {
+		case len(first.RLog.E) != before:
+			c.Violate("a command run by one runner reached the handler registered on another runner", map[string]any{"readers": ts, "second_runner_got": o.String(), "first_runner_log": first.RLog.E})
+			return
+		case registered && (o.Kind != mon.KLine || otherCalls != 1):
+			c.Violate("a command did not reach the handler registered on its own runner (second runner)", map[string]any{"readers": ts, "second_runner_got": o.String(), "handler_calls": otherCalls})
+			return
+		case !registered && o.Kind != mon.KErr:
+			c.Violate("a command under a name registered only on ANOTHER runner did not produce an error", map[string]any{"readers": ts, "second_runner_got": o.String()})
+			return
+		}
+		c.Feature("two-runners-separate-registries")
 	}
 
 	// ---- K3 sub-workload
